@@ -12,7 +12,8 @@ route (round g): absent = through Graph / ConjunctiveGraph objects as before; "s
 ConjunctiveGraph.contexts() (= AuditableStore.contexts()) hands out for that name, when there is one; "self" = a quad of the
 default graph given as `(s, p, o, cg)` with cg the ConjunctiveGraph itself (the wrapper then receives a ConjunctiveGraph as context);
 "ctxof" / "quadctx" / "tripctx" = through the Graph object of that name that `cg.contexts(<a triple the graph holds>)`, `cg.quads()` or the
-wrapper's own `triples()` hands out, when there is one (every graph object obtained through the wrapper must log through the wrapper).
+wrapper's own `triples()` hands out, when there is one (every graph object obtained through the wrapper must log through the wrapper);
+"resource" (round h) = through `graph.resource(s).add(p, o)` / `.remove(p, o)` (rdflib.resource.Resource holds the graph it was asked of).
 cfg "nest" (round g): ConjunctiveGraph over AuditableStore(AuditableStore(Memory)); wrapper 0 = outer (all operations),
 wrapper 1 = inner (commit / rollback behind the outer wrapper's back).
 Terms are small integers (vocabulary below, falsy literals included); graph names 90…93 (93 = the name rdflib gives a graph requested as <>).
@@ -106,7 +107,7 @@ def gen_case(rng, tier, i):
     def route():
         if cfg == "sgraph":
             return []
-        r_ = rng.choice([None, None, "store", "ident", "ctxobj", "self", "ctxof", "quadctx", "tripctx"] if cfg in ("cg", "nest") else [None, None, "store"])
+        r_ = rng.choice([None, None, "store", "ident", "ctxobj", "self", "ctxof", "quadctx", "tripctx", "resource"] if cfg in ("cg", "nest") else [None, None, "store", "resource"])
         return [r_] if r_ else []
 
     def known(kinds):
@@ -490,6 +491,8 @@ def run_impl(case):
             s, p, o, c = op[2:6]
             if route == "store":
                 st.add((t(s), t(p), t(o)), ctx_of(st, c))
+            elif route == "resource":
+                (top if cfg == "graph" else top.get_context(gn[c])).resource(t(s)).add(t(p), t(o))
             elif cfg == "graph":
                 top.add((t(s), t(p), t(o)))
             elif route == "ident":
@@ -569,6 +572,8 @@ def run_impl(case):
             s, p, o, c = op[2:6]
             if route == "store":
                 st.remove((t(s), t(p), t(o)), ctx_of(st, c))
+            elif route == "resource" and s is not None and p is not None and c is not None:
+                (top if cfg == "graph" else top.get_context(gn[c])).resource(t(s)).remove(t(p), t(o))
             elif cfg == "graph":
                 top.remove((t(s), t(p), t(o)))
             elif c is None:
@@ -681,8 +686,10 @@ def _op_lines(op):
     k, w = op[0], op[1]
     if k in ("add", "remove"):
         return [f"{k} {w} " + " ".join(_w(x) for x in op[2:6])]
-    if k in ("addn", "parse"):
+    if k == "addn":
         return [f"addn {w} " + " ".join(" ".join(_w(x) for x in q) for q in op[2])]
+    if k == "parse":
+        return [f"parse {w} " + " ".join(" ".join(_w(x) for x in q) for q in op[2])]
     if k == "addf":
         return [f"addf {w} " + " ".join(_w(x) for x in op[2]) + "".join(" " + " ".join(_w(x) for x in e) for e in op[3])]
     if k == "set":
@@ -694,12 +701,12 @@ def _op_lines(op):
     if k == "upd":
         sub = op[2]
         if sub == "insert":
-            return [f"addn {w} " + " ".join(" ".join(_w(x) for x in q) for q in op[3])]
+            return [f"upd-insert {w} " + " ".join(" ".join(_w(x) for x in q) for q in op[3])]
         if sub == "delete":
-            return [f"isub {w} " + " ".join(" ".join(_w(x) for x in q) for q in op[3])]
+            return [f"upd-delete {w} " + " ".join(" ".join(_w(x) for x in q) for q in op[3])]
         if sub == "clear":
-            return [f"rmctx {w} {op[3]}"]
-        return [f"remove {w} " + " ".join(_w(x) for x in op[3:7])]
+            return [f"upd-clear {w} {op[3]}"]
+        return [f"upd-delwhere {w} " + " ".join(_w(x) for x in op[3:7])]
     if k == "bind":
         return [f"bind {w} {op[2]} {op[3]} {op[4]}"]
     if k == "pass":
